@@ -201,7 +201,8 @@ enum Op {
     /// replicated state calls ready, so a back-date before the iteration would be overwritten)
     TickWorkerStale { worker: String },
     ConnectorCreate { name: String, valid: bool },
-    ConnectorUpdate { name: String, valid: bool },
+    /// `body_name`: the `name` field of the JSON body (clients may send one that differs from the path)
+    ConnectorUpdate { name: String, body_name: String, valid: bool },
     ConnectorDelete { name: String },
     /// what main.rs does at start-up with --scaling-*: `coord.scaling_policy = Some(policy)`
     ScalingConfig,
@@ -221,7 +222,7 @@ impl Op {
             Op::Tick => json!({"op": "health-loop iteration (main.rs order)"}),
             Op::TickWorkerStale { worker } => json!({"op": "health-loop iteration (main.rs order) in which the sweep finds this worker's heartbeat older than the timeout", "worker": worker}),
             Op::ConnectorCreate { name, valid } => json!({"op": "POST connectors", "name": name, "valid": valid}),
-            Op::ConnectorUpdate { name, valid } => json!({"op": "PUT connectors/{name}", "name": name, "valid": valid}),
+            Op::ConnectorUpdate { name, body_name, valid } => json!({"op": "PUT connectors/{name}", "name": name, "name_in_body": body_name, "valid": valid}),
             Op::ConnectorDelete { name } => json!({"op": "DELETE connectors/{name}", "name": name}),
             Op::ScalingConfig => json!({"op": "start-up configuration as in main.rs: coord.scaling_policy = Some(policy)"}),
         }
@@ -414,8 +415,8 @@ async fn exec(env: &Env, op: &Op, step_no: usize) -> Result<(String, J), String>
             let (st, body) = call(r, "POST", "/api/v1/cluster/connectors", Some(connector_body(name, *valid, step_no as u64))).await?;
             Ok((if st == 201 { "connector-create".into() } else { "connector-create(rejected)".into() }, json!({"status": st, "error": body["error"]})))
         }
-        Op::ConnectorUpdate { name, valid } => {
-            let (st, body) = call(r, "PUT", &format!("/api/v1/cluster/connectors/{}", name), Some(connector_body(name, *valid, 100 + step_no as u64))).await?;
+        Op::ConnectorUpdate { name, body_name, valid } => {
+            let (st, body) = call(r, "PUT", &format!("/api/v1/cluster/connectors/{}", name), Some(connector_body(body_name, *valid, 100 + step_no as u64))).await?;
             Ok((if st == 200 { "connector-update".into() } else { "connector-update(rejected)".into() }, json!({"status": st, "error": body["error"]})))
         }
         Op::ConnectorDelete { name } => {
@@ -465,7 +466,11 @@ fn gen_history(rng: &mut Rng) -> Vec<Op> {
             25..=28 => Op::Tick,
             29..=32 => Op::TickWorkerStale { worker: w(rng) },
             33..=35 => Op::ConnectorCreate { name: rng.pick(&["mq1", "mq2"]).to_string(), valid: rng.chance(3, 4) },
-            36..=37 => Op::ConnectorUpdate { name: rng.pick(&["mq1", "mq2"]).to_string(), valid: rng.chance(3, 4) },
+            36..=37 => {
+                let name = rng.pick(&["mq1", "mq2"]).to_string();
+                let body_name = if rng.chance(1, 4) { rng.pick(&["mq1", "mq2", "mq9"]).to_string() } else { name.clone() };
+                Op::ConnectorUpdate { name, body_name, valid: rng.chance(3, 4) }
+            }
             38 => Op::ConnectorDelete { name: rng.pick(&["mq1", "mq2"]).to_string() },
             _ => Op::ScalingConfig,
         };
